@@ -156,3 +156,41 @@ def run_gate(ast, replay, test_strings, seed=0, n_random=120, hash_order='insert
             return {'ok': False, 'checked': checked, 'order_dependent': order_dependent, 'first_mismatch': {'docs': docs, 'diff': diff}}
         checked += 1
     return {'ok': True, 'checked': checked, 'order_dependent': order_dependent, 'first_mismatch': None}
+
+# ---------------------------------------------------------------------------------------------- byte-level corpus (native only; not solver-decided)
+BASE_DOCS = ['<a x="1" y="2"><b>t</b><b><c/></b><!-- c --><![CDATA[d]]></a>', '<?xml version="1.0"?>\n<r><p a="1"/><p><q/></p></r>',
+             '<ns:a xmlns:ns="u"><ns:b ns:k="v"/></ns:a>', '<a><b><c><d><e/></d></c></b></a>', '<Ид атр="1">текст</Ид>']
+def mutated_corpus(seed, n):
+    rng = random.Random(seed * 7919 + 13)
+    out = []
+    for _ in range(n):
+        b = bytearray(rng.choice(BASE_DOCS).encode())
+        for _ in range(rng.randint(1, 4)):
+            r = rng.random()
+            if not b: break
+            i = rng.randrange(len(b))
+            if r < 0.3: b[i] = rng.choice(b'<>/="\'&! ?-[]\xff\xc3\x00a:')
+            elif r < 0.5: del b[i:i + rng.randint(1, 5)]
+            elif r < 0.7: b[i:i] = bytes(rng.choice([b'<', b'>', b'</a>', b'<x', b'"', b'\xff', b'<!--', b'<![CDATA[', b'<?', b' x=1 ', b' x="1" x="2" ']))
+            elif r < 0.85: b = b[:i]
+            else: b[i:i] = b[max(0, i - rng.randint(1, 8)):i]
+        out.append({'hex': bytes(b).hex()})
+    for d in range(0, 201, 50):
+        out.append({'hex': (b'<a>' * d + b'</a>' * d).hex()})
+    return out
+
+def expected_from_events(evs, initial=True):
+    """the independent pass of C08 over the REAL quick_xml event stream (tools/replay op=events): first fault in stream order"""
+    has_el = False
+    for e in evs:
+        k = e['kind']
+        if k == 'Err': return {'kind': 'QuickXmlError', 'pos': e['pos'], 'inner': e['err']}
+        if k in ('Start', 'Empty'):
+            has_el = True
+            if 'hex' in e['name']: return {'kind': 'FromUtf8Error'}
+            for a in e['attrs']:
+                if not a['ok']: return {'kind': 'AttrError', 'inner': a['err']}
+                if 'hex' in a['key']: return {'kind': 'FromUtf8Error'}
+        if k in ('Text', 'CData') and 'hex' in e['content']: return {'kind': 'FromUtf8Error'}
+    if initial and not has_el: return {'kind': 'ParsingError'}
+    return None
